@@ -57,6 +57,17 @@ CHECKS["C09"] = (SEM, "every program PRODUCER x MID x CONSUMER is run through op
                  "declarations; all instances, all answer sets; set equality of (answer set on IN u OUT or what #show "
                  "displays, costs)", "8/C09")
 
+CHECKS["C01"] = (
+    "bounded-exhaustive exploration of optimize over a composition corpus x trait subsets (pairwise bound in quick, all 512 "
+    "in thorough) x declarations, the per-pass family programs under default/all and the frozen test inputs; all "
+    "instances, all answer sets, clingo as reference model",
+    "every execution's result is solved for every instance of the universe and compared with the source on the output "
+    "predicates (explicit OUT, or what #show displays with auto-detection; satisfiability when nothing is shown); the "
+    "tracer attributes a difference to the first non-equivalent stage", "8/C01")
+CHECKS["C10"] = (SEM, "every program with a shared literal SET in two/three statements x CONTEXT x EXTRA x RENAMING is run "
+                 "through optimize(duplication only); all instances, all answer sets, multiset equality on voc(P) with costs",
+                 "8/C10")
+
 ALL = [f"C{i:02d}" for i in range(1, 21)]
 
 
